@@ -43,6 +43,9 @@ class RefVal:
     srt: frozenset | None = None
     psort: bool = False
     eng: str = "e1"
+    # sub-bag rule: when ``amb``, every legal result is a sub-bag of ``base`` (the per-row operations and
+    # deduplications applied since the ambiguous slice, applied to that slice's WHOLE input); None = no claim
+    base: tuple | None = None
 
     def digest(self):
         return (
@@ -54,6 +57,7 @@ class RefVal:
             None if self.srt is None else tuple(sorted(self.srt)),
             self.psort,
             self.eng,
+            None if self.base is None else tuple(tuple(sorted(r.items())) for r in self.base),
         )
 
 
@@ -160,8 +164,9 @@ def ref_apply(
             raise RefReject(errs, f"calc {t}")
         det = val.det and (not sql or bool(marker_has_sort))
         ps = val.psort and bool(marker_has_sort)
+        base = None if val.base is None else tuple({**r, t: A.ref_eval(e, r)} for r in val.base)
         return rep(
-            val, rows=tuple({**r, t: A.ref_eval(e, r)} for r in rows), cols=cols | {t}, det=det, psort=ps
+            val, rows=tuple({**r, t: A.ref_eval(e, r)} for r in rows), cols=cols | {t}, det=det, psort=ps, base=base
         )
     if k == "proj_all":
         return val
@@ -171,7 +176,8 @@ def ref_apply(
             return val
         if not p <= cols:
             raise RefReject({"ColumnError"}, "proj")
-        return rep(val, rows=tuple({c: r[c] for c in p} for r in rows), cols=p)
+        base = None if val.base is None else tuple({c: r[c] for c in p} for r in val.base)
+        return rep(val, rows=tuple({c: r[c] for c in p} for r in rows), cols=p, base=base)
     if k == "sel":
         p = op[1]
         if A.trivial_value(p) is True:
@@ -186,12 +192,14 @@ def ref_apply(
         det = val.det and (not sql or bool(marker_has_sort))
         ps = val.psort and bool(marker_has_sort)
         out = tuple(r for r in rows if A.ref_eval(p, r))
-        return rep(val, rows=out, det=det, psort=ps, cdet=val.cdet and not val.amb)
+        base = None if val.base is None else tuple(r for r in val.base if A.ref_eval(p, r))
+        return rep(val, rows=out, det=det, psort=ps, cdet=val.cdet and not val.amb, base=base)
     if k == "dedup":
         if not sql and fd_violated(rows, cols):
             raise RefOOC("dedup on rows violating the is_key functional dependency")
         det = val.det and (not sql or val.srt is None or val.srt <= cols)
-        return rep(val, rows=tuple(first_occurrence_dedup(rows)), det=det, cdet=val.cdet and not val.amb)
+        base = None if val.base is None else tuple(first_occurrence_dedup(val.base))
+        return rep(val, rows=tuple(first_occurrence_dedup(rows)), det=det, cdet=val.cdet and not val.amb, base=base)
     if k == "sort":
         terms = op[1]
         if not terms:
@@ -225,12 +233,14 @@ def ref_apply(
         n = len(rows)
         out = rows[start:stop]
         amb = val.amb
+        base = val.base
         if not val.det and not val.amb:
             whole = start == 0 and (stop is None or stop >= n)
             empty = len(out) == 0
             if not (whole or empty):
                 amb = True
-        return rep(val, rows=tuple(out), amb=amb, psort=False)
+                base = rows  # whichever rows the engine picks, they come from here
+        return rep(val, rows=tuple(out), amb=amb, psort=False, base=base)
     if k == "chain":
         other = scen_operand(val, op[1], scen)
         errs = set()
@@ -336,6 +346,16 @@ def compare(val: RefVal, got_rows, *, force_bag=False):
         detail = "" if ok else "row keys differ from reference columns"
         if ok and val.cdet and len(got_rows) != len(val.rows):
             ok, detail = False, f"row count {len(got_rows)} != {len(val.rows)}"
+        if ok and val.base is not None:
+            import collections
+
+            have = collections.Counter(tuple(sorted(r.items())) for r in val.base)
+            for r in got_rows:
+                k = tuple(sorted(r.items()))
+                if have[k] <= 0:
+                    ok, detail = False, f"row {r} cannot come from the rows the ambiguous slice could choose from"
+                    break
+                have[k] -= 1
         return "weak", ok, detail
     if val.det and not force_bag:
         ok = list(got_rows) == list(val.rows)
